@@ -170,6 +170,13 @@ def BelowS (L : Lang) (n : Nat) : Prop :=
     arityOf L new = 0 → below L n σ v new = .ok σ' →
     Step L σ σ' ∧ ∀ ρ, Sat L ρ σ' → Sub L (ρ v) (.app new [])
 
+/-- `unify` in subtype mode (stated here because `bind` hands the bounds of a variable bound to
+another variable over through `unify`) -/
+def UnifyS (L : Lang) (n : Nat) : Prop :=
+  ∀ σ a b σ', OkStore L σ → NoConstraints σ → okTerm L σ a = true → okTerm L σ b = true →
+    unify L n σ a b true false false = .ok σ' →
+    Step L σ σ' ∧ ∀ ρ, Sat L ρ σ' → Sub L (den ρ a) (den ρ b)
+
 theorem bindPre_var (L : Lang) (σ : Store) (v w : Nat) : BindPre L σ v (.var w) := by
   intro o args h; cases h
 
@@ -395,7 +402,7 @@ theorem below_step {L : Lang} (wf : WF L) {n : Nat} (hbind : BindS L n) : BelowS
 
 def clearW (σ : Store) (v : Nat) : VarInfo := { (getVar σ v) with wildcard := false }
 
-/-- the store `bind v (.var tv)` hands to `above`/`below` -/
+/-- the store `bind v (.var tv)` hands to `unify` (which passes the bounds of `v` on to `tv`) -/
 def bindVarStore (σ : Store) (v tv : Nat) : Store :=
   let i := clearW σ v
   let σ := setVar σ v i
@@ -423,12 +430,12 @@ theorem bind_var_eq (L : Lang) (n : Nat) (σ : Store) (v tv : Nat) :
       else if tv == v then .ok (setVar σ v (clearW σ v))
       else
         match (match (getVar σ v).lower with
-               | some l => above L n (bindVarStore σ v tv) tv l
+               | some l => unify L n (bindVarStore σ v tv) (.app l []) (.var tv) true false false
                | none => .ok (bindVarStore σ v tv)) with
         | .error e => .error e
         | .ok σ1 =>
           match (match (getVar σ v).upper with
-                 | some u => below L n σ1 tv u
+                 | some u => unify L n σ1 (.var tv) (.app u []) true false false
                  | none => .ok σ1) with
           | .error e => .error e
           | .ok σ2 => checkConstraints L n σ2 v := by
@@ -494,7 +501,7 @@ theorem nc_bindVarStore {σ : Store} (nc : NoConstraints σ) (v tv : Nat) :
   rw [nc2, nc2]
   exact nc_setCset_nil nc2 _
 
-theorem bind_step {L : Lang} (wf : WF L) {n : Nat} (habove : AboveS L n) (hbelow : BelowS L n) :
+theorem bind_step {L : Lang} (wf : WF L) {n : Nat} (hunify : UnifyS L n) :
     BindS L (n+1) := by
   intro σ v t σ' ok nc hv ht hpre h
   cases t with
@@ -525,10 +532,13 @@ theorem bind_step {L : Lang} (wf : WF L) {n : Nat} (habove : AboveS L n) (hbelow
               ∀ ρ, Sat L ρ σ1 → ∀ l, (getVar σ v).lower = some l → Sub L (.app l []) (ρ tv) := by
             split at h1
             · next l hl =>
-              obtain ⟨s, hs⟩ := habove _ tv l σ1 okB ncB htv (ok.lower v l hl).1 (ok.lower v l hl).2 h1
+              obtain ⟨s, hs⟩ := hunify _ (.app l []) (.var tv) σ1 okB ncB
+                (okTerm_base (ok.lower v l hl).1 (ok.lower v l hl).2) (okTerm_var.mpr htv) h1
               refine ⟨s, fun ρ hρ l' hl' => ?_⟩
               rw [hl] at hl'; injection hl' with hl'; subst hl'
-              exact hs ρ hρ
+              have := hs ρ hρ
+              rw [den_app, denL_nil, den_var] at this
+              exact this
             · next hl =>
               injection h1 with h1; subst h1
               exact ⟨Step.refl okB ncB, fun ρ _ l' hl' => by rw [hl] at hl'; cases hl'⟩
@@ -539,11 +549,14 @@ theorem bind_step {L : Lang} (wf : WF L) {n : Nat} (habove : AboveS L n) (hbelow
                 ∀ ρ, Sat L ρ σ2 → ∀ u, (getVar σ v).upper = some u → Sub L (ρ tv) (.app u []) := by
               split at h2
               · next u hu =>
-                obtain ⟨s, hs⟩ := hbelow _ tv u σ2 k1.1.ok k1.1.nc (Nat.lt_of_lt_of_le htv k1.1.len)
-                  (ok.upper v u hu).1 (ok.upper v u hu).2 h2
+                obtain ⟨s, hs⟩ := hunify _ (.var tv) (.app u []) σ2 k1.1.ok k1.1.nc
+                  (okTerm_var.mpr (Nat.lt_of_lt_of_le htv k1.1.len))
+                  (okTerm_base (ok.upper v u hu).1 (ok.upper v u hu).2) h2
                 refine ⟨s, fun ρ hρ u' hu' => ?_⟩
                 rw [hu] at hu'; injection hu' with hu'; subst hu'
-                exact hs ρ hρ
+                have := hs ρ hρ
+                rw [den_app, denL_nil, den_var] at this
+                exact this
               · next hu =>
                 injection h2 with h2; subst h2
                 exact ⟨Step.refl k1.1.ok k1.1.nc, fun ρ _ u' hu' => by rw [hu] at hu'; cases hu'⟩
